@@ -39,6 +39,7 @@ type Behaviour struct {
 var (
 	Tick       = 2 * time.Millisecond
 	serial     atomic.Int64
+	evSeq      atomic.Int64 // global order of launches / signals / exits (ground truth for "before")
 	aliveCount atomic.Int64
 	allMu      sync.Mutex
 	all        []*Cmd
@@ -62,6 +63,41 @@ func AliveProc(p string) bool {
 		}
 	}
 	return false
+}
+
+// Snapshot describes one command for the record-validated properties.
+type Snapshot struct {
+	Serial    int64    `json:"serial"`
+	Proc      string   `json:"proc"`
+	Alive     bool     `json:"alive"`
+	Signalled bool     `json:"signalled"`
+	LaunchSeq int64    `json:"launchSeq"`
+	ExitSeq   int64    `json:"exitSeq"`
+	SigSeq    int64    `json:"sigSeq"`
+	Argv      []string `json:"argv"`
+	Dir       string   `json:"dir"`
+	Env       []string `json:"-"`
+}
+
+// All returns a snapshot of every command created since the last Reset.
+func All() []Snapshot {
+	allMu.Lock()
+	cs := append([]*Cmd(nil), all...)
+	allMu.Unlock()
+	out := []Snapshot{}
+	for _, c := range cs {
+		c.mu.Lock()
+		if c.started {
+			argv := c.Argv
+			if argv == nil {
+				argv = []string{}
+			}
+			out = append(out, Snapshot{Serial: c.Serial, Proc: c.Proc, Alive: !c.dead, Signalled: c.sigSeen, LaunchSeq: c.LaunchSeq,
+				ExitSeq: c.ExitSeq, SigSeq: c.SigSeq, Argv: argv, Dir: c.dir, Env: c.env})
+		}
+		c.mu.Unlock()
+	}
+	return out
 }
 
 // Reset forgets all commands (between scenarios) after force-killing survivors.
@@ -94,22 +130,25 @@ type Cmd struct {
 	B       Behaviour
 	Argv    []string
 
-	mu       sync.Mutex
-	started  bool
-	dead     bool
-	exitCode int
-	exited   chan struct{}
-	env      []string
-	dir      string
-	outW     *io.PipeWriter
-	outR     *io.PipeReader
-	errW     *io.PipeWriter
-	errR     *io.PipeReader
-	firstSig time.Time
-	sigSeen  bool
-	dying    bool
-	Written  []OutItem // lines actually written (C11 ground truth)
-	writeMu  sync.Mutex
+	mu        sync.Mutex
+	started   bool
+	dead      bool
+	exitCode  int
+	exited    chan struct{}
+	env       []string
+	dir       string
+	outW      *io.PipeWriter
+	outR      *io.PipeReader
+	errW      *io.PipeWriter
+	errR      *io.PipeReader
+	firstSig  time.Time
+	sigSeen   bool
+	dying     bool
+	Written   []OutItem // lines actually written (C11 ground truth)
+	LaunchSeq int64
+	ExitSeq   int64
+	SigSeq    int64 // first signal
+	writeMu   sync.Mutex
 }
 
 func New(proc string, inst int64, attempt int, argv []string, b Behaviour) *Cmd {
@@ -133,6 +172,7 @@ func (c *Cmd) Start() error {
 		return errors.New("scripted start failure")
 	}
 	c.started = true
+	c.LaunchSeq = evSeq.Add(1)
 	aliveCount.Add(1)
 	tracer.Emit("Launch", c.Proc, c.Inst, "c", c.Serial, "attempt", c.Attempt, "dir", c.dir)
 	c.mu.Unlock()
@@ -212,6 +252,7 @@ func (c *Cmd) die(code int, bySignal bool, forced bool) {
 	}
 	c.dead = true
 	c.exitCode = code
+	c.ExitSeq = evSeq.Add(1)
 	c.mu.Unlock()
 	// output written "immediately before exit"
 	if !forced {
@@ -273,6 +314,7 @@ func (c *Cmd) Stop(sig int, parentOnly bool) error {
 	} else {
 		c.sigSeen = true
 		c.firstSig = time.Now()
+		c.SigSeq = evSeq.Add(1)
 	}
 	aliveNow := c.started && !c.dead
 	tracer.Emit("Signal", c.Proc, c.Inst, "c", c.Serial, "sig", sig, "parentOnly", parentOnly,
